@@ -82,6 +82,18 @@ class Names:
     def safe_name(self, c):
         return self.comp(c, None)
 
+    def path_rebased(self, rel):
+        """rel: path relative to an EXISTING ancestor of the storage folder, which plays the part of the collection
+        root: the ancestors, the storage folder and `collection-root` become visible directories (safe names), so that
+        the durability rules for directory entries cover the creation of the storage location itself."""
+        rel = rel.strip("/")
+        out = [("Root",)]
+        if not rel or rel == ".":
+            return tuple(out)
+        for c in rel.split("/"):
+            out.append(self.comp(c, out[-1]))
+        return tuple(out)
+
 
 def enc_name(n):
     return n[0] if len(n) == 1 else "%s %d" % (n[0], n[1])
@@ -248,11 +260,12 @@ def _flags(args):
     return set(m.group(1).split("|")) if m else set()
 
 
-def project(events, folder, names, contents, start_mark=None, end_mark=None):
+def project(events, folder, names, contents, start_mark=None, end_mark=None, rebased=False):
     """Project the mutating system calls of the phase between the marks to model steps.
     Returns list of dict(step=(kind, path[, path2|code]), ok=bool, sys=[Sys...]) and the list of
     lock-file opens (Sys) of the phase."""
     folder = os.path.realpath(folder)
+    npath = names.path_rebased if rebased else names.path
     counts = {}
     fdinfo = {}   # fd -> (rel path, is_write)
     steps, locks, reads = [], [], []
@@ -301,7 +314,7 @@ def project(events, folder, names, contents, start_mark=None, end_mark=None):
             if active and not ({"O_CREAT", "O_WRONLY", "O_RDWR"} & fl):
                 reads.append((sysc, r, "O_DIRECTORY" in fl))
             if "O_CREAT" in fl and ("O_WRONLY" in fl or "O_RDWR" in fl) and active:
-                steps.append(dict(step=("Create", names.path(r)), ok=ok, sys=[sysc]))
+                steps.append(dict(step=("Create", npath(r)), ok=ok, sys=[sysc]))
                 pending_write = None
             continue
         if not active:
@@ -315,7 +328,7 @@ def project(events, folder, names, contents, start_mark=None, end_mark=None):
                 continue
             sm = trace._str.search(e.args)
             data = trace.unescape(sm.group(1)).encode("utf-8", "surrogateescape") if sm else b""
-            p = names.path(r)
+            p = npath(r)
             if pending_write is not None and steps and steps[-1] is pending_write and pending_write["step"][1] == p and ok:
                 pending_write["data"] += data
                 pending_write["sys"].append(sysc)
@@ -332,7 +345,7 @@ def project(events, folder, names, contents, start_mark=None, end_mark=None):
             if r is None or is_lock(r):
                 continue
             isw = fdinfo.get(int(m.group(1)), (r, False))[1]
-            steps.append(dict(step=("FsyncF" if isw else "FsyncD", names.path(r)), ok=ok, sys=[sysc]))
+            steps.append(dict(step=("FsyncF" if isw else "FsyncD", npath(r)), ok=ok, sys=[sysc]))
         elif e.call in ("rename", "renameat", "renameat2"):
             if e.call == "rename":
                 a, b = e.paths[0], e.paths[1]
@@ -345,7 +358,7 @@ def project(events, folder, names, contents, start_mark=None, end_mark=None):
             if ra is None or rb is None:
                 continue
             kind = "Exchange" if "RENAME_EXCHANGE" in e.args else "Rename"
-            steps.append(dict(step=(kind, names.path(ra), names.path(rb)), ok=ok, sys=[sysc]))
+            steps.append(dict(step=(kind, npath(ra), npath(rb)), ok=ok, sys=[sysc]))
         elif e.call in ("unlink", "unlinkat", "rmdir"):
             if e.call == "unlinkat":
                 ds = re.findall(r"(?:AT_FDCWD|\d+)<([^>]*)>", e.args)
@@ -358,12 +371,12 @@ def project(events, folder, names, contents, start_mark=None, end_mark=None):
             r = rel_of(p0)
             if r is None or is_lock(r):
                 continue
-            steps.append(dict(step=("Rmdir" if isdir else "Unlink", names.path(r)), ok=ok, sys=[sysc]))
+            steps.append(dict(step=("Rmdir" if isdir else "Unlink", npath(r)), ok=ok, sys=[sysc]))
         elif e.call in ("mkdir", "mkdirat"):
             r = rel_of(e.paths[0])
             if r is None:
                 continue
-            steps.append(dict(step=("Mkdir", names.path(r)), ok=ok, sys=[sysc]))
+            steps.append(dict(step=("Mkdir", npath(r)), ok=ok, sys=[sysc]))
     # content ids of writes
     for s in steps:
         if s["step"][0] == "Write":
